@@ -103,6 +103,9 @@ def observe(entry, labels, seed, n_train=14, n_test=6, refit=False, level=0.0):
             X_d = np.diff(X2, 1)
             mem = []
             for est, iv in zip(clf.estimators_, clf.intervals_):
+                if not hasattr(clf, "_transform"):
+                    mem = []        # the (private) feature helper is gone: the tree-average clause is not evaluated
+                    break
                 feat = np.concatenate((clf._transform(X2, iv[0]), clf._transform(X_p, iv[1]), clf._transform(X_d, iv[2])), axis=1)
                 pr = est.predict_proba(feat)
                 full = np.zeros((len(X2), len(clf.classes_)))
